@@ -15,6 +15,8 @@
 //!                                                          a handle prints its hash in the op, its allocation class in the outcome)
 //!   O|mode|env|type|value|streamhex -> OUTCOME            (mutated nested stream)
 //!   Q|env|type|value                -> hex                (nested, colliding hashes: encoder only)
+//!   K|env|type|value|junkhex|ty~val^ty~val.. -> hex|OUTCOME (one decode step of a history on a long-lived interner; the last
+//!                                                          field lists the values alive at that moment)
 //! OUTCOME = ok|rendering|consumed  or  eof / invalid / panic.
 #![allow(clippy::all, dead_code, unused_imports, unused_macros)]
 use std::any::type_name;
@@ -1467,6 +1469,128 @@ fn nested_case<S: NTop>(out: &mut Out, st: &mut Stats, rng: &mut Rng) {
     drop(v);
 }
 
+// ------------------------------------------------------------------------------------------------
+// interned handles, HISTORIES on one long-lived interner: encode / decode-and-keep / decode-and-drop / drop / vacuum.
+// Dropping every handle to a value leaves a DEAD weak entry under its hash until the next vacuum; the model's interner
+// holds live entries only (a dead entry is an absent one): for every decode step the model's interner is rebuilt from
+// the values that are alive at that moment, the real interner just lives on.
+// ------------------------------------------------------------------------------------------------
+impl NPay for u64 { const TID: u32 = 5; fn pay_render(&self, _: &mut NCx) -> String { Describe::render(self) } }
+impl NPay for Vec<u16> { const TID: u32 = 6; fn pay_render(&self, _: &mut NCx) -> String { list(self.iter().map(|x| x.to_string()).collect()) } }
+impl NPay for [u32] { const TID: u32 = 7; fn pay_render(&self, _: &mut NCx) -> String { list(self.iter().map(|x| x.to_string()).collect()) } }
+impl NPay for Path { const TID: u32 = 8; fn pay_render(&self, _: &mut NCx) -> String { shex(self.to_str().unwrap().as_bytes()) } }
+type F1 = (Vec<Interned<str>>, Vec<Interned<[u32]>>, Vec<Interned<Path>>, Interned<u64>);
+type F2 = (Interned<String>, Vec<Interned<Vec<u16>>>, Option<Interned<str>>, Vec<Interned<Path>>);
+#[derive(PartialEq)]
+pub enum HVal { N1(N1), N2(N2), N3(N3), N4(N4), F1(F1), F2(F2) }
+macro_rules! hv_each { ($s:expr, $v:ident => $e:expr) => { match $s { HVal::N1($v) => $e, HVal::N2($v) => $e, HVal::N3($v) => $e, HVal::N4($v) => $e, HVal::F1($v) => $e, HVal::F2($v) => $e } } }
+fn nty_of<T: NShape>(_: &T) -> String { T::nty() }
+impl HVal {
+    fn nty(&self) -> String { hv_each!(self, v => nty_of(v)) }
+    fn render(&self, cx: &mut NCx) -> String { hv_each!(self, v => v.nrender(cx)) }
+    fn encode(&self, p: &Plugin) -> Vec<u8> { hv_each!(self, v => encode_real(v, p)) }
+    fn kind(&self) -> u8 { match self { HVal::N1(_) => 0, HVal::N2(_) => 1, HVal::N3(_) => 2, HVal::N4(_) => 3, HVal::F1(_) => 4, HVal::F2(_) => 5 } }
+    fn decode_kind(kind: u8, dec: &mut Guard, p: &Plugin) -> Result<HVal, Outcome> {
+        match kind { 0 => decode_real::<N1>(dec, p).map(HVal::N1), 1 => decode_real::<N2>(dec, p).map(HVal::N2), 2 => decode_real::<N3>(dec, p).map(HVal::N3),
+            3 => decode_real::<N4>(dec, p).map(HVal::N4), 4 => decode_real::<F1>(dec, p).map(HVal::F1), _ => decode_real::<F2>(dec, p).map(HVal::F2) }
+    }
+    fn build(rng: &mut Rng, it: &Interner, pool: &NPool) -> HVal {
+        let words = ["", "a", "b"]; let paths = ["", "a", "a/b"]; let sl: [&[u32]; 3] = [&[], &[1], &[1, 200]];
+        let s = |rng: &mut Rng| it.intern_unsized::<str, Box<str>>((*rng.pick(&words)).to_string().into_boxed_str());
+        let p = |rng: &mut Rng| it.intern_unsized::<Path, Box<Path>>(PathBuf::from(*rng.pick(&paths)).into_boxed_path());
+        match rng.below(8) {
+            0 => HVal::N1(N1::from_pool(pool, rng)), 1 => HVal::N2(N2::from_pool(pool, rng)), 2 => HVal::N3(N3::from_pool(pool, rng)), 3 => HVal::N4(N4::from_pool(pool, rng)),
+            4 | 5 => {
+                let a: Vec<Interned<str>> = (0..rng.below(5)).map(|_| s(rng)).collect();
+                let b: Vec<Interned<[u32]>> = (0..rng.below(4)).map(|_| it.intern_unsized::<[u32], Box<[u32]>>(rng.pick(&sl).to_vec().into_boxed_slice())).collect();
+                let c: Vec<Interned<Path>> = (0..rng.below(4)).map(|_| p(rng)).collect();
+                HVal::F1((a, b, c, it.intern(*rng.pick(&[0u64, 300]))))
+            }
+            _ => {
+                let a = it.intern((*rng.pick(&words)).to_string());
+                let b: Vec<Interned<Vec<u16>>> = (0..rng.below(4)).map(|_| it.intern(pool_v16(rng))).collect();
+                let c = if rng.chance(2, 3) { Some(s(rng)) } else { None };
+                let d: Vec<Interned<Path>> = (0..rng.below(4)).map(|_| p(rng)).collect();
+                HVal::F2((a, b, c, d))
+            }
+        }
+    }
+}
+const HENV: &str = "0=T(Pu16,S(H0),O(H2),Pstr);1=E(T(),T(H0),T(H1,Pu16),T(H1,H1),T(H3),T(H4));2=Pstr;3=Pstr;4=S(H0);5=Pu64;6=Pseq(u16);7=Pseq(u32);8=Pstr";
+struct HSlot { kind: u8, ty: String, val: String, bytes: Vec<u8>, orig: Option<HVal> }
+fn history_case(out: &mut Out, st: &mut Stats, rng: &mut Rng) {
+    let it = Interner::new(4, MaskedBuilder { seed: rng.next(), mask: u128::MAX });
+    let mut plugin = Plugin::new(); plugin.insert(it.clone());
+    let mut steps: Vec<String> = vec![];
+    let mut slots: Vec<HSlot> = vec![];
+    {
+        let mk = Mk { it: Some(&it) };
+        let pool = NPool::build(rng, &mk);
+        for i in 0..rng.range(1, 3) {
+            let v = HVal::build(rng, &it, &pool);
+            let mut cx = NCx { it: &it, classes: false, occ: vec![] };
+            let val = v.render(&mut cx);
+            let bytes = v.encode(&plugin);
+            steps.push(format!("v{i}={}:{} enc v{i}", v.nty(), val));
+            slots.push(HSlot { kind: v.kind(), ty: v.nty(), val, bytes, orig: Some(v) });
+        }
+    }
+    let mut kept: Vec<(usize, HVal)> = vec![];
+    let mut dead_possible = false;
+    for _ in 0..rng.range(3, 9) {
+        match rng.below(9) {
+            0 | 1 => { let i = rng.below(slots.len() as u64) as usize; if slots[i].orig.take().is_some() { steps.push(format!("drop v{i}")); dead_possible = true; } }
+            2 => { if !kept.is_empty() { let j = rng.below(kept.len() as u64) as usize; kept.remove(j); steps.push(format!("drop kept#{j}")); dead_possible = true; } }
+            3 => { it.vacuum(); steps.push("vacuum".into()); }
+            k => {
+                let i = rng.below(slots.len() as u64) as usize;
+                let keep = k >= 7;
+                steps.push(format!("decode v{i} {}", if keep { "keep" } else { "drop-result" }));
+                // what is alive right now: (type id, rendering) -> pointer, and the list handed to the model
+                let mut alive: HashMap<(u32, String), usize> = HashMap::new();
+                let mut kept_s: Vec<String> = vec![];
+                for (s, v) in slots.iter().filter_map(|s| s.orig.as_ref().map(|v| (s, v))).chain(kept.iter().map(|(i, v)| (&slots[*i], v))) {
+                    let mut cx = NCx { it: &it, classes: false, occ: vec![] };
+                    let _ = v.render(&mut cx);
+                    for (t, p, r) in cx.occ { alive.insert((t, r), p); }
+                    kept_s.push(format!("{}~{}", s.ty, s.val));
+                }
+                let s = &slots[i];
+                let j = junk(rng);
+                let mut stream = s.bytes.clone(); stream.extend_from_slice(&j);
+                let mut dec = Guard::new(&stream[..], vlimit());
+                let r = HVal::decode_kind(s.kind, &mut dec, &plugin);
+                if dec.tripped { st.guard_skipped += 1; return; }
+                let consumed = stream.len() - dec.remaining();
+                let op = format!("K|{}|{}|{}|{}|{}", HENV, s.ty, s.val, hex(&j), kept_s.join("^"));
+                let hist = format!("history on one interner: {} ; op {}", steps.join(" ; "), op);
+                let (imp_o, bad): (String, Option<(&str, String)>) = match &r {
+                    Ok(d) => {
+                        let mut c1 = NCx { it: &it, classes: false, occ: vec![] };
+                        let dval = d.render(&mut c1);
+                        let docc = c1.occ;
+                        let mut c2 = NCx { it: &it, classes: true, occ: vec![] };
+                        let shown = d.render(&mut c2);
+                        let bad = if dval != s.val { Some(("interned-history:roundtrip", format!("decoded {dval}"))) }
+                            else if consumed != s.bytes.len() { Some(("interned-history:consumed", format!("consumed {consumed} of {}", s.bytes.len()))) }
+                            else if let Some((a, b)) = (0..docc.len()).flat_map(|a| (0..docc.len()).map(move |b| (a, b))).find(|(a, b)| docc[*a].0 == docc[*b].0 && (docc[*a].1 == docc[*b].1) != (docc[*a].2 == docc[*b].2)) {
+                                Some(("interned-history:sharing", format!("occurrences {a} and {b}: equal values {} but same allocation {}", docc[a].2 == docc[b].2, docc[a].1 == docc[b].1))) }
+                            else if let Some(o) = docc.iter().find(|o| alive.get(&(o.0, o.2.clone())).map_or(false, |p| *p != o.1)) { Some(("interned-history:not-canonical", format!("a decoded handle of type {} is not the allocation of the equal live value", o.0))) }
+                            else { None };
+                        (format!("ok|{}|{}", shown, consumed), bad)
+                    }
+                    Err(Outcome::Panic) => ("panic".into(), Some(("interned-history:decode-panicked", "decode panicked".to_string()))),
+                    Err(o) => (o.show(), Some(("interned-history:decode-error", o.show()))),
+                };
+                st.line(out, "history", &op, &format!("{}|{}", hex(&s.bytes), imp_o), true);
+                Stats::bump(&mut st.classes, if dead_possible { "history-decode-after-drops" } else { "history-decode-all-alive" });
+                if let Some((sig, desc)) = bad { st.fail(sig.into(), format!("{desc}: {}", hist.chars().take(1500).collect::<String>()), hist.clone()); }
+                if keep { if let Ok(d) = r { kept.push((i, d)); } } else { dead_possible = true; }
+            }
+        }
+    }
+}
+
 /// rebuild a BitVec from its descriptor `bv(W,O)` and rendering `b<len>:<w>.<w>…`
 fn corpus_bitvec(desc: &str, val: &str) -> Option<Box<dyn Erased>> {
     let v = val.strip_prefix('b')?;
@@ -1494,7 +1618,7 @@ fn main() {
     let a = args();
     if std::env::var("C12_PANIC_MSG").is_err() { std::panic::set_hook(Box::new(|_| {})); }
     let mut shard = (0u64, 1u64);
-    let mut stages: Vec<String> = vec!["exh16", "edges", "random", "pairs", "malformed", "interned", "nested"].into_iter().map(String::from).collect();
+    let mut stages: Vec<String> = vec!["exh16", "edges", "random", "pairs", "malformed", "interned", "nested", "history"].into_iter().map(String::from).collect();
     let mut i = 0;
     while i < a.rest.len() {
         match a.rest[i].as_str() {
@@ -1572,11 +1696,15 @@ fn main() {
         }
     }
 
+    if stages.iter().any(|s| s == "history") {
+        for _ in 0..(n / 16).max(8).min(6000) { history_case(&mut out, &mut st, &mut rng); }
+    }
+
     let fails: Vec<String> = st.failures.iter().map(|(sig, desc, case)| format!("{{\"sig\":{},\"desc\":{},\"case\":{}}}", jstr(sig), jstr(&desc.chars().take(600).collect::<String>()), jstr(&case.chars().take(2000).collect::<String>()))).collect();
     let report = format!(
         "{{\"evaluations\":{},\"distinct_nontrivial\":{},\"rule\":{},\"samples\":[{}],\"distribution\":{{\"by_stage\":{},\"by_type_depth\":{},\"encoded_length\":{},\"malformed_outcome\":{},\"mutation_kind\":{},\"rust_types\":{},\"descriptors\":{},\"guard_skipped\":{},\"interned_hypothesis_violated\":{}}},\"oracle_failures\":[{}]}}",
         st.lines, st.nontrivial.len(),
-        jstr("distinct op lines whose encoding has at least 2 bytes, plus every back-to-back, malformed and interned case"),
+        jstr("distinct op lines whose encoding has at least 2 bytes, plus every back-to-back, malformed, interned, nested and history-step case"),
         st.samples.iter().map(|s| jstr(&s.chars().take(300).collect::<String>())).collect::<Vec<_>>().join(","),
         jmap(&st.by_stage), jmap(&st.by_depth), jmap(&st.enc_len), jmap(&st.classes), jmap(&st.mutations),
         st.rust_types.len(), st.descs.len(), st.guard_skipped, st.hyp_violated, fails.join(","));
